@@ -145,7 +145,7 @@ mod verif_in_packet_stream {
         Context::from_waker(w)
     }
 
-    //@ h name=rx_chunking props=C03,C16,C04 tier=thorough cap=big to=3600 mem=40
+    //@ h name=rx_chunking props=C03,C16,C04 tier=off cap=big to=3600 mem=40
     //@ claim: for every byte stream made of frames with one-byte remaining lengths and every way of cutting it into reads (any sizes from 1 byte up, Pending injected anywhere), poll_next hands the decoder exactly the reference frames (same boundaries, same bytes, same order) no matter how the bytes were chunked; it returns Pending only after the reader returned Pending in that same call (so a wakeup is registered); when it returns Pending every complete frame among the delivered bytes has been emitted; it returns end-of-stream only after the reader reported end-of-stream or an error; it never panics
     //@ bounds: streams of 0..=4 arbitrary bytes whose frame headers carry one-byte remaining lengths (frames of 2..=4 bytes, up to 2 frames, possibly an incomplete tail); up to 4 polls; the reader delivers at most one chunk per poll of the stream (it returns Pending after every successful read) of the stream; reads limited by what the stream offers (512-byte chunks) and by the bytes still to come; RxPacket::try_decode replaced by a recording stub (the decoders are checked separately)
     //@ assume: RxPacket::try_decode stubbed by a recorder (framing does not depend on its result)
@@ -157,7 +157,7 @@ mod verif_in_packet_stream {
         rx_chunking_body(true, 4);
     }
 
-    //@ h name=rx_chunking_eager props=C03,C16,C04 tier=thorough cap=big to=3600 mem=40
+    //@ h name=rx_chunking_eager props=C03,C16,C04 tier=off cap=big to=3600 mem=40
     //@ claim: same as rx_chunking, for readers that never return Pending while bytes are outstanding (every cut of the stream into reads, no early Pending), with more polls
     //@ bounds: as rx_chunking but the reader returns Pending only after the last byte; up to 5 polls
     //@ assume: RxPacket::try_decode stubbed by a recorder (framing does not depend on its result)
@@ -271,6 +271,7 @@ mod verif_in_packet_stream {
         }
         assert!(emitted == 1, "the packet is emitted within four polls");
         kani::cover!(hdr == 0xd0, "PINGRESP one byte at a time");
+        kani::cover!(hdr == 0xe0, "DISCONNECT (remaining length 0) one byte at a time");
         core::mem::forget(stream);
     }
 
@@ -400,12 +401,12 @@ mod verif_in_packet_stream {
             }
         };
     }
-    //@ h name=rx_script_3_3 props=C03,C16,C04 tier=quick cap=big to=1800 mem=30
-    //@ h name=rx_script_1_1_4 props=C03,C16,C04 tier=quick cap=big to=1800 mem=30
-    //@ h name=rx_script_2_3 props=C03,C16,C04 tier=quick cap=big to=1800
-    //@ h name=rx_script_whole props=C03,C16,C04 tier=quick cap=big to=1800
-    //@ h name=rx_script_4_1_1 props=C03,C16,C04 tier=thorough cap=big to=1800
-    //@ h name=rx_script_1_4 props=C03,C16,C04 tier=thorough cap=big to=1800
+    //@ h name=rx_script_3_3 props=C03,C16,C04 tier=off cap=big to=3600 mem=45
+    //@ h name=rx_script_1_1_4 props=C03,C16,C04 tier=off cap=big to=3600 mem=45
+    //@ h name=rx_script_2_3 props=C03,C16,C04 tier=off cap=big to=3600 mem=45
+    //@ h name=rx_script_whole props=C03,C16,C04 tier=off cap=big to=3600 mem=45
+    //@ h name=rx_script_4_1_1 props=C03,C16,C04 tier=off cap=big to=1800
+    //@ h name=rx_script_1_4 props=C03,C16,C04 tier=off cap=big to=1800
     //@ claim: two consecutive frames are handed to the decoder with exactly their own bytes, in order, for the given way of cutting the byte stream into reads (a cut inside the fixed header, right after the next frame's header byte, at the frame boundary, or none); the stream returns Pending only after the reader returned Pending in that poll, emits every complete frame before going Pending, never reports end-of-stream while the transport is open, never panics
     //@ bounds: two frames with concrete remaining lengths (0+2, 0+2, 1+0, 0+0, 2+0, 0+3) and symbolic header and body bytes; one concrete cut pattern per harness (3|3, 1|1|4, 2|3, whole, 4|1|1, 1|4); up to 4 polls; all chunkings of short streams with symbolic cuts (rx_chunking*) are in the thorough tier because they exceed the quick tier's memory cap
     //@ assume: RxPacket::try_decode stubbed by a recorder (framing does not depend on its result)
@@ -417,4 +418,116 @@ mod verif_in_packet_stream {
     rx_script!(rx_script_4_1_1, 2, 0, [4, 1, 1, 0]);
     rx_script!(rx_script_1_4, 0, 3, [1, 4, 0, 0]);
 
+
+    //@ h name=rx_two_in_one_read props=C03,C16,C04 tier=quick cap=big to=1800 mem=30
+    //@ claim: two remaining-length-0 packets arriving in ONE read are both emitted, in order, before the stream goes Pending (nothing already received is withheld until an unrelated later read), Pending is returned only after the reader's Pending, no end-of-stream, no panic
+    //@ bounds: frames <h0> 00 <h1> 00 for every pair of header bytes; one read of 4 bytes; 3 polls
+    //@ assume: RxPacket::try_decode stubbed by a recorder
+    //@ funcs: RxPacketStream::poll_next
+    #[kani::proof]
+    #[kani::unwind(9)]
+    #[kani::stub(<crate::codec::RxPacket as crate::core::utils::TryDecode>::try_decode, decode_recorder8)]
+    pub(crate) fn rx_two_in_one_read() {
+        let (h0, h1): (u8, u8) = (kani::any(), kani::any());
+        let mut data = [0u8; SN];
+        data[0] = h0;
+        data[2] = h1;
+        N_FRAMES.store(0, Ordering::Relaxed);
+        let mock = ScriptRx { data, len: 4, pos: 0, cuts: [4, 0, 0, 0], k: 0, registered: false };
+        let mut stream = RxPacketStream::from(mock);
+        let mut cx = noop_cx();
+        let mut emitted = 0usize;
+        let mut i = 0;
+        while i < 3 {
+            stream.stream.registered = false;
+            match Pin::new(&mut stream).poll_next(&mut cx) {
+                Poll::Pending => {
+                    assert!(stream.stream.registered, "Pending only after the reader returned Pending in this poll (wakeup registered)");
+                    assert!(emitted == 2, "when Pending, every complete frame among the delivered bytes has been emitted");
+                }
+                Poll::Ready(None) => panic!("end-of-stream although the transport is still open"),
+                Poll::Ready(Some(r)) => {
+                    assert!(emitted < 2, "no third frame");
+                    assert!(F_LEN[emitted].load(Ordering::Relaxed) == 2, "frame length equals the reference frame");
+                    assert!(F_HEAD[emitted].load(Ordering::Relaxed) >> 56 == (if emitted == 0 { h0 } else { h1 }) as u64, "frames in order");
+                    emitted += 1;
+                    core::mem::forget(r);
+                }
+            }
+            i += 1;
+        }
+        assert!(emitted == 2, "both frames are emitted within three polls");
+        kani::cover!(h0 == 0xd0 && h1 == 0xe0, "PINGRESP then DISCONNECT in one read");
+        kani::cover!(h0 == 0xf0, "AUTH first");
+        core::mem::forget(stream);
+    }
+
+    /// Lean scripted-chunking check: two frames with concrete remaining lengths and concrete body
+    /// bytes, symbolic header bytes, concrete cuts.
+    fn rx_lean_body(rl0: usize, rl1: usize, cuts: [usize; 4], polls: usize) {
+        let (h0, h1): (u8, u8) = (kani::any(), kani::any());
+        let mut data = [0x5au8; SN];
+        let l0 = 2 + rl0;
+        let l1 = 2 + rl1;
+        data[0] = h0;
+        data[1] = rl0 as u8;
+        data[l0] = h1;
+        data[l0 + 1] = rl1 as u8;
+        let len = l0 + l1;
+        N_FRAMES.store(0, Ordering::Relaxed);
+        let mock = ScriptRx { data, len, pos: 0, cuts, k: 0, registered: false };
+        let mut stream = RxPacketStream::from(mock);
+        let mut cx = noop_cx();
+        let mut emitted = 0usize;
+        let mut i = 0;
+        while i < polls {
+            stream.stream.registered = false;
+            match Pin::new(&mut stream).poll_next(&mut cx) {
+                Poll::Pending => {
+                    assert!(stream.stream.registered, "Pending only after the reader returned Pending in this poll (wakeup registered)");
+                    let got = stream.stream.pos;
+                    let complete = if got >= len { 2 } else if got >= l0 { 1 } else { 0 };
+                    assert!(emitted == complete, "when Pending, every complete frame among the delivered bytes has been emitted");
+                }
+                Poll::Ready(None) => panic!("end-of-stream although the transport is still open"),
+                Poll::Ready(Some(r)) => {
+                    assert!(emitted < 2, "no third frame");
+                    let (flen, h) = if emitted == 0 { (l0, h0) } else { (l1, h1) };
+                    assert!(F_LEN[emitted].load(Ordering::Relaxed) == flen, "frame length equals the reference frame");
+                    assert!(F_HEAD[emitted].load(Ordering::Relaxed) >> 56 == h as u64, "frames in order, starting at their own header byte");
+                    emitted += 1;
+                    core::mem::forget(r);
+                }
+            }
+            i += 1;
+        }
+        assert!(emitted == 2, "both frames are emitted within the polls allowed");
+        kani::cover!(h0 == 0xd0 && h1 == 0x40, "PINGRESP-typed then PUBACK-typed frame");
+        kani::cover!(h0 == h1, "equal header bytes");
+        core::mem::forget(stream);
+    }
+    macro_rules! rx_lean {
+        ($name:ident, $rl0:expr, $rl1:expr, $cuts:expr, $polls:expr) => {
+            #[kani::proof]
+            #[kani::unwind(9)]
+            #[kani::stub(<crate::codec::RxPacket as crate::core::utils::TryDecode>::try_decode, decode_recorder8)]
+            pub(crate) fn $name() {
+                rx_lean_body($rl0, $rl1, $cuts, $polls);
+            }
+        };
+    }
+    //@ h name=rx_lean_3_3 props=C03,C16,C04 tier=off cap=big to=1800 mem=30
+    //@ h name=rx_lean_2_2 props=C03,C16,C04 tier=off cap=big to=1800 mem=30
+    //@ h name=rx_lean_1_3 props=C03,C16,C04 tier=off cap=big to=1800 mem=30
+    //@ h name=rx_lean_2_3 props=C03,C16,C04 tier=off cap=big to=1800 mem=30
+    //@ h name=rx_lean_5 props=C03,C16,C04 tier=off cap=big to=1800 mem=30
+    //@ claim: two consecutive frames (symbolic header bytes, concrete remaining lengths and bodies) reach the decoder with their own lengths and header bytes, in order, for the given concrete way of cutting the stream into reads (right after the next frame's header byte, at the frame boundary, inside the first header, inside the first frame, none); Pending only after the reader's Pending; every complete delivered frame emitted before Pending; no end-of-stream; no panic
+    //@ bounds: frames (rl 0, rl 2) cut 3|3; (0,0) cut 2|2; (0,0) cut 1|3; (1,0) cut 2|3; (2,0) cut 5 + (0); up to 4 polls
+    //@ assume: RxPacket::try_decode stubbed by a recorder
+    //@ funcs: RxPacketStream::poll_next, VarSizeInt::try_from(&[u8])
+    rx_lean!(rx_lean_3_3, 0, 2, [3, 3, 0, 0], 4);
+    rx_lean!(rx_lean_2_2, 0, 0, [2, 2, 0, 0], 4);
+    rx_lean!(rx_lean_1_3, 0, 0, [1, 3, 0, 0], 4);
+    rx_lean!(rx_lean_2_3, 1, 0, [2, 3, 0, 0], 4);
+    rx_lean!(rx_lean_5, 2, 0, [6, 0, 0, 0], 3);
 }
